@@ -91,7 +91,40 @@ def build(seed):
     return {"seed": seed, "profile": "c17", "root": "root", "tree": tree, "ops": ops, "c17": meta}
 
 
+def nested_rename_scenarios():
+    """a rename INSIDE a nested history, sealed from the outer folder, with the same and with another format than the
+    recorded one (the comparison digest then has to be computed afresh)"""
+    out = []
+    for fm2 in (["md5"], ["sha1"], ["xxh64", "md5"]):
+        for mv in (("Cards/A001/clip1.mov", "Cards/A001/renamed.mov"), ("Cards/A001/clip1.mov", "Cards/A001/sub/clip1.mov")):
+            tree = {"Cards/A001/clip1.mov": "clip one", "Cards/A001/clip2.mov": "clip two", "Cards/A001/sub/": None, "top.txt": "top"}
+            ops = [{"op": "create", "at": "Cards/A001", "h": ["md5"], "now": "2026-03-01 12:00:01"}, {"op": "create", "at": "", "h": ["md5"], "now": "2026-03-01 12:00:02"},
+                   {"op": "mv", "src": mv[0], "dst": mv[1]}, {"op": "create", "at": "", "h": fm2, "now": "2026-03-01 12:00:03", "dr": True},
+                   {"op": "verify", "at": ""}, {"op": "diff", "at": ""}, {"op": "verify", "at": "Cards/A001"}, {"op": "create", "at": "", "h": ["md5"], "now": "2026-03-01 12:00:04"}]
+            out.append({"profile": "c17-nested", "root": "root", "tree": tree, "ops": ops, "c17n": {"hist": "Cards/A001", "old": mv[0][len("Cards/A001/"):], "new": mv[1][len("Cards/A001/"):], "dr_index": 3}})
+    return out
+
+
+def monitor_nested(sc, res):
+    meta, fails = sc["c17n"], []
+    for i, st in enumerate(res["steps"]):
+        op, io_ = st["op"], st["impl"]
+        if io_ is None:
+            continue
+        if io_["exc"] is not None or io_["exit"] != 0:
+            fails.append({"what": f"{op['op']} at {op.get('at', '')!r} exits {io_['exit']} {io_['exc'] or ''} (rename {meta['old']!r} -> {meta['new']!r} inside the nested history {meta['hist']!r}, create -dr {res['steps'][meta['dr_index']]['op']['h']}): missing {io_['missing']} new {io_['new']}", "replay": sc})
+        if i == meta["dr_index"] and io_["exc"] is None:
+            wr = M.written_by_hist(io_, "")
+            recs = {r["path"]: r for name, m, _ in wr.get(meta["hist"], []) for r in m["records"]}
+            r = recs.get(meta["new"])
+            if r is None or r.get("prev") != meta["old"]:
+                fails.append({"what": f"create -dr: the nested history's record of {meta['new']!r} has previousPath {None if r is None else r.get('prev')!r}, the file was {meta['old']!r} (relative to that history) before", "replay": sc})
+    return fails
+
+
 def monitor(sc, res):
+    if sc.get("c17n"):
+        return monitor_nested(sc, res)
     meta = sc.get("c17")
     if not meta:
         return []
@@ -148,7 +181,7 @@ def monitor(sc, res):
 
 
 def run(ctx):
-    scs = [build(ctx.seed * 1000609 + i) for i in range(ctx.scale(150, 2500))]
+    scs = nested_rename_scenarios() + [build(ctx.seed * 1000609 + i) for i in range(ctx.scale(150, 2500))]
     return _scn.run_scn(ctx, scs, monitor, witness_ids=("D8", "D12"),
         assumptions=["pairwise distinct contents among recorded files; one history; the new path of a renamed file was never recorded before (DESIGN.md 9)"])
 
